@@ -1685,7 +1685,10 @@ class DNA(symbolic.Object):
     for k, v in self.metadata.items():
       if k in self._cloneable_metadata_keys:
         metadata[k] = v
-    other.rebind(metadata=metadata)
+    # NOTE: the clone carries over the sealed flag, thus it needs to be treated
+    # as unsealed for setting up its metadata.
+    with symbolic.as_sealed(False):
+      other.rebind(metadata=metadata)
     other._cloneable_metadata_keys = set(self._cloneable_metadata_keys)  # pylint: disable=protected-access
     return other
 
